@@ -57,6 +57,14 @@ func (x *g) genStream(m *spec.Method) {
 		x.s.AddFeature("stream-init-inline")
 	}
 	// ---- messages
+	if x.o.StreamForce == "views" && !x.forced {
+		x.forced = true
+		x.s.Features = removeFeature(x.s.Features, "stream-"+m.Stream)
+		m.Stream = "server"
+		x.s.AddFeature("stream-server", "stream-result-resulttype", "stream-result-views-forced")
+		m.Result = &spec.Attr{Type: &spec.Type{Kind: spec.Ref, Ref: x.genOpenViewType().Name}}
+		return
+	}
 	switch m.Stream {
 	case "server":
 		m.Result = x.genStreamMsg(true, "stream-result-")
@@ -155,7 +163,10 @@ func (x *g) genStreamInitObject() *spec.Type {
 		case c == 0:
 			a.Type = &spec.Type{Kind: spec.Array, Elem: &spec.Attr{Type: &spec.Type{Kind: k}}}
 			x.s.AddFeature("stream-init-array")
-		case c == 1 && x.primAlias() != "":
+		case c == 1 && !x.o.Runtime && x.primAlias() != "":
+			// (not in runtime designs: an alias that is also reachable from a custom error type gets an Error()
+			// method, after which the client encoder's fmt.Sprintf("%v") prints it as "" — the runtime envelope
+			// excludes types shared between errors and payloads, DESIGN §13.1)
 			a.Type = &spec.Type{Kind: spec.Ref, Ref: x.primAlias()}
 			x.s.AddFeature("stream-init-alias")
 		default:
@@ -249,4 +260,42 @@ func (x *g) genStreamMsg(result bool, tag string) *spec.Attr {
 		stripStringLengths(a)
 	}
 	return a
+}
+
+func removeFeature(fs []string, f string) []string {
+	out := fs[:0]
+	for _, g := range fs {
+		if g != f {
+			out = append(out, g)
+		}
+	}
+	return out
+}
+
+// genOpenViewType adds a result type with the views default / tiny / extended whose attributes are all
+// optional and without defaults: no view hides a required attribute, so every projection can be judged.
+func (x *g) genOpenViewType() *spec.UserType {
+	ut := &spec.UserType{Name: x.typeName("Feed"), Kind: "result", Def: &spec.Type{Kind: spec.Object}}
+	used := map[string]bool{}
+	kinds := []string{spec.Int, spec.String, spec.Boolean, spec.Float64, spec.UInt32}
+	n := x.r.Range(3, 5)
+	for i := 0; i < n; i++ {
+		a := &spec.Attr{Name: x.pickName(used), Type: &spec.Type{Kind: kinds[x.r.Intn(len(kinds))]}}
+		if i == n-1 {
+			a.Type = &spec.Type{Kind: spec.Array, Elem: &spec.Attr{Type: &spec.Type{Kind: spec.String}}}
+		}
+		ut.Def.Attrs = append(ut.Def.Attrs, a)
+	}
+	all := ut.Def.Attrs
+	view := func(name string, k int) *spec.View {
+		v := &spec.View{Name: name}
+		for _, a := range all[:k] {
+			v.Attrs = append(v.Attrs, spec.ViewAttr{Name: a.Name})
+		}
+		return v
+	}
+	ut.Views = []*spec.View{view("default", 2), view("tiny", 1), view("extended", len(all))}
+	x.s.Types = append(x.s.Types, ut)
+	x.s.AddFeature("result-type", "multi-view")
+	return ut
 }
